@@ -21,4 +21,9 @@ long echo_long(long x) { lg(5, x, 0); return x; }
 void* echo_ptr(void* p) { lg(6, (long)(intptr_t)p, 0); return p; }
 unsigned long slen(const char* s) { lg(7, 0, 0); return strlen(s); }
 /* nested: calls cb, which may invoke back into a sandbox */
-int nest(int (*cb)(int), int depth) { lg(8, depth, 0); return cb(depth); }
+int nest(int (*cb)(int), int depth) { int r; lg(8, depth, 0); r = cb(depth); r += cb(-1 - depth); return r; }
+long call_cb_l(long (*cb)(long, char), long a, char c) { long r = cb(a, c); lg(9, a, r); return r; }
+void* call_cb_p(void* (*cb)(void*), void* p) { void* r = cb(p); lg(10, (long)(intptr_t)p, (long)(intptr_t)r); return r; }
+double call_cb_d(double (*cb)(double, float), double d, float f) { double r = cb(d, f); lg(11, 0, 0); return r; }
+void call_cb_v(void (*cb)(int), int x) { cb(x); lg(12, x, 0); }
+unsigned long long call_cb_u(unsigned long long (*cb)(unsigned long long), unsigned long long x) { unsigned long long r = cb(x); lg(13, (long)x, (long)r); return r; }
